@@ -77,8 +77,8 @@ def run_rows(part, unit):
         lo, hi = float(r['min_wavelength']), float(r['max_wavelength'])
         ws = wl_menu(lo, hi, unit['tier'])
         if ref.get('unsorted'):
-            # rows out of wavelength order in the file: sample the middle of every interval of the (sorted) tables as well
-            part.count('tables-with-rows-out-of-order')
+            # rows out of wavelength order, or a wavelength listed twice: sample the middle of every interval of the (sorted) tables
+            part.count('tables-with-rows-out-of-order-or-repeated')
             for tb in (ref.get('n_table'), ref.get('k_table')):
                 if tb is not None and len(tb[0]) > 1:
                     x_ = np.unique(tb[0])
